@@ -1092,7 +1092,10 @@ class WorkerPool:
         """
         if not self._workers:
             # There are no workers (left), but the handler threads can still be around when we got interrupted while
-            # joining the workers
+            # joining the workers. The same holds for the progress bar handler, which waits to be told to shut down
+            if self._progress_bar_handler is not None and self._progress_bar_handler.thread is not None:
+                self._worker_comms.signal_progress_bar_shutdown()
+                self._progress_bar_handler.thread.join()
             self._stop_handler_threads()
             return
 
